@@ -9,4 +9,10 @@ cd /verif
 if [ ! -x /verif/bin/govc ]; then
   (cd /verif/govc && GOFLAGS=-mod=vendor go build -o /verif/bin/govc .) || exit 2
 fi
-exec /verif/bin/govc check -prop "$PROP" -tier "$TIER" -repo "${GOVC_REPO:-/repo}" -out "/verif/evidence/$PROP.json"
+/verif/bin/govc check -prop "$PROP" -tier "$TIER" -repo "${GOVC_REPO:-/repo}" -out "/verif/evidence/$PROP.json"
+RC=$?
+if [ "$TIER" = thorough ] && [ $RC -eq 0 ]; then
+  # assumption sanity run and must-fail self-test on scratch copies (adds to the evidence; never raises a violation)
+  python3 /verif/tools/thorough_extras.py "$PROP" "/verif/evidence/$PROP.json" || true
+fi
+exit $RC
